@@ -115,15 +115,20 @@ def _run_concrete(times, start, nd, img_dt, flt_dt, photon3d, writes, debug, inh
     return dt, snaps
 
 
-def _debug_records(times, start, nd, img_dt, flt_dt):
-    """Debug clause, per model and per step: a three-model pipeline (one model writes photons only, one writes the other buckets, one
-    writes nothing); every bucket a model changed is recorded under it, and nothing else is - except, for the first model of a step, what
-    the reset at the beginning of the step changed."""
+def _debug_records(times, start, nd, img_dt, flt_dt, photon3d=False):
+    """Debug clause, per model and per step: a four-model pipeline (one model writes photons, one adds to them in place, one writes the
+    other buckets, one writes nothing); every bucket a model changed is recorded under it with the values the detector held when that
+    model returned, and nothing else is - except, for the first model of a step, what the reset at the beginning of the step changed."""
+    import xarray as xr
+
     import pyxel
     from pyxel.exposure import Exposure, Readout
     from pyxel.pipelines import DetectionPipeline, ModelFunction
 
     BUCKETS = ("photon", "charge", "pixel", "signal", "image")
+
+    def cube(v):
+        return xr.DataArray(np.full((3,) + SHAPE, float(v)) + np.arange(3.0).reshape(3, 1, 1), dims=["wavelength", "y", "x"], coords={"wavelength": [500.0, 600.0, 700.0]})
 
     def snap(d):
         out = {}
@@ -143,7 +148,15 @@ def _debug_records(times, start, nd, img_dt, flt_dt):
         i = d.pipeline_count
         before = snap(d)
         if tag == "pc":
-            d.photon.array = (np.arange(6, dtype=float).reshape(SHAPE) * (i + 2)).astype(flt_dt)
+            if photon3d:
+                d.photon.array_3d = cube(10 * (i + 1))
+            else:
+                d.photon.array = (np.arange(6, dtype=float).reshape(SHAPE) * (i + 2)).astype(flt_dt)
+        elif tag == "pc2":
+            if photon3d:
+                d.photon += cube(i + 1)  # in place on the cube the first model left
+            else:
+                d.photon += np.full(SHAPE, 1.0 + i)
         elif tag == "write":
             d.charge.add_charge_array(np.full(SHAPE, 3.0 * (i + 1)))
             if i % 2 == 0:
@@ -154,14 +167,15 @@ def _debug_records(times, start, nd, img_dt, flt_dt):
 
     vxprobes.reset(hook)
     try:
-        pipe = DetectionPipeline(photon_collection=[ModelFunction(func="vxprobes.probe", name="pc", arguments={"tag": "pc"})],
+        pipe = DetectionPipeline(photon_collection=[ModelFunction(func="vxprobes.probe", name="pc", arguments={"tag": "pc"}),
+                                                    ModelFunction(func="vxprobes.probe_c", name="pc2", arguments={"tag": "pc2"})],
                                  charge_collection=[ModelFunction(func="vxprobes.probe_a", name="write", arguments={"tag": "write"})],
                                  data_processing=[ModelFunction(func="vxprobes.probe_b", name="idle", arguments={"tag": "idle"})])
         dt = pyxel.run_mode(mode=Exposure(readout=Readout(times=times, start_time=start, non_destructive=nd)), detector=make_ccd(*SHAPE), pipeline=pipe,
                             debug=True, with_inherited_coords=True)
     finally:
         vxprobes.reset(None)
-    groups = {"pc": "photon_collection", "write": "charge_collection", "idle": "data_processing"}
+    groups = {"pc": "photon_collection", "pc2": "photon_collection", "write": "charge_collection", "idle": "data_processing"}
     problems = {}
     prev_end = None
     for k, (i, tag, before, after) in enumerate(calls):
@@ -177,6 +191,11 @@ def _debug_records(times, start, nd, img_dt, flt_dt):
         missing, extra = changed - recorded, recorded - changed - by_reset
         if missing or extra:
             problems[f"step{i}/{tag}"] = {"changed_by_model": sorted(changed), "recorded": sorted(recorded), "changed_by_reset": sorted(by_reset)}
+        for b in sorted(changed & recorded):
+            got = np.asarray(node[b], dtype=float)
+            want = after[b]
+            if got.size != want.size or not np.allclose(got.reshape(want.shape), want, rtol=1e-6, atol=0):
+                problems[f"step{i}/{tag}/{b}/values"] = {"recorded": got.ravel()[:6].tolist(), "detector_held_after_the_model": want.ravel()[:6].tolist()}
         if tag == "idle":
             prev_end = after
     return problems
@@ -301,7 +320,7 @@ def _check_all(times, start, nd, img_dt, flt_dt, photon3d, writes, debug):
         except KeyError as e:
             res["debug"]["missing_node"] = str(e)
         for mode_nd in (False, True):  # both readout modes on this schedule (the reset differs between them)
-            rec = _debug_records(times, start, mode_nd, img_dt, flt_dt)
+            rec = _debug_records(times, start, mode_nd, img_dt, flt_dt, photon3d=photon3d)
             if rec:
                 res["debug"][f"per_model_records/non_destructive={mode_nd}"] = rec
     if "scene" not in dt_h.children or "data" not in dt_h.children:
